@@ -450,6 +450,10 @@ func has(xs []string, s string) bool {
 
 // FreshNonce draws a nonce for domain d that the model does not list as used.
 func (g *G) FreshNonce(label string, d uint32) uint64 {
+	// (domain, nonce) pairs whose stored form is the all-default value matter more than their share of the space
+	if !g.W.Model.Used[UsedSpec{d, 0}] && g.Pct(label+"/zero", 8) {
+		return 0
+	}
 	for i := 0; ; i++ {
 		var n uint64
 		if g.Pct(fmt.Sprintf("%s/h#%d", label, i), 50) {
@@ -1058,6 +1062,15 @@ func (g *G) drawGenesis(o GenOpts) *GenSpec {
 		nd = rapid.IntRange(3, 5).Draw(t, "ndom2")
 	}
 	doms := rapid.Permutation(Domains).Draw(t, "doms")[:nd]
+	if rapid.IntRange(0, 3).Draw(t, "domzero") == 0 {
+		has0 := false
+		for _, d := range doms {
+			has0 = has0 || d == 0
+		}
+		if !has0 {
+			doms[0] = 0
+		}
+	}
 	for i, d := range doms {
 		if d == 4 {
 			d = 6
